@@ -127,6 +127,12 @@ def run(mod, tier, seed):
                            "at": binfo.get("broken_at"), "why": binfo.get("broken_msg", "")[-1200:]})
         for h in binfo["hygiene"]:
             broken.append({"obligation": "hygiene", "why": h})
+    chk = None
+    if tier == "thorough" and binfo["proofs_ok"]:
+        with core.Lock():
+            chk = core.coqchk(prop)
+        if not chk["ok"]:
+            broken.append({"obligation": "coqchk of Properties/%s.vo" % prop, "why": chk["tail"]})
     fp_changed = core.fingerprint_changes(ex)
     relevant_fp = [f for f in fp_changed if f in getattr(mod, "FILES", [])]
     eff_tier = tier
@@ -195,6 +201,9 @@ def run(mod, tier, seed):
           "(run /repo's code, canonicalise, write the case shards)" % prop.lower()]
     for name, a in sorted(binfo["assumptions"].items()):
         tb.append("Print Assumptions %s: %s" % (name, a))
+    if chk is not None:
+        tb.append("coqchk -o AT.Properties.%s (independent checker, whole dependency cone): %s; axioms: %s; %ss"
+                  % (prop, "ok" if chk["ok"] else "FAILED", chk["axioms"], chk["wall_s"]))
     tb.extend(getattr(mod, "TRUSTED", []))
     coverage = {
         "obligations": max(binfo["obligations"], 1), "discharged": binfo["discharged"],
